@@ -505,5 +505,14 @@ func shapeSources() []string {
 		"F64 in [1, 2, 3]", "F32 in [1, 2]", "2.5 in [1, 2, 3]", "1.5 in AI", "F64 in AI", "F64 in 1..3", "U8 in [200, 404, 500]", "U16 in [80, 443, 70000]", "I8 in [100, 300]", "I16 in [44, 65580]",
 		"Sum(1, 2) + Sum(1)", "Sum(1) + Sum(10, 20)", "Sum(1, 2, 3) + Sum()", "[Fast(1, 2), Fast(3)]", "Fast(1) + Fast(1, 2, 3)", "St.Get() + P.Get()", "Add(1, 2) + Add(3, 4) + Inc(5)",
 	}
+	// mixed-kind arithmetic whose result meets an operation that is SPECIALISED on the static kind (== on two ints, the
+	// in-array rewrite): the static type of `a op b` has to be the dynamic one
+	pairs := [][2]string{{"I", "I8"}, {"I8", "I"}, {"I", "I16"}, {"I16", "I"}, {"I", "I32"}, {"I32", "I"}, {"I", "I64"}, {"I64", "I"}, {"I", "U8"}, {"U8", "I"},
+		{"I", "U"}, {"U", "I"}, {"I8", "I16"}, {"U8", "I64"}, {"U", "I64"}, {"I32", "I8"}}
+	for i, pr := range pairs {
+		op := []string{"+", "*", "-"}[i%3]
+		ab := "(" + pr[0] + " " + op + " " + pr[1] + ")"
+		out = append(out, ab+" == 3", ab+" == I", ab+" in [1, 2, 3, 5, 6]", "len(AI) == "+ab)
+	}
 	return out
 }
